@@ -296,6 +296,8 @@ class Project:
             if exported is None and name.startswith('_'):
                 continue
             r = self.resolve(star, name, _depth + 1)
+            if r.startswith('builtins.'):
+                continue
             if r != f'{star}.{name}' or self._defined_in(star, name):
                 return r
         return f'builtins.{name}'
